@@ -33,39 +33,28 @@ class Placed:
     def __init__(self, body, seed=None, **opts):
         self.body = body
         self.text, self.pos, self.slot_pos = R.render(body, seed, **opts)
-        self.offs = {}          # (istr path, part index) -> character offset of the slot
-        self._offsets(body)
-
-    def _offsets(self, node):
-        if isinstance(node, dict):
-            if node.get("t") == "istr":
-                off = 0
-                for i, p in enumerate(node["parts"]):
-                    if p["t"] == "lit":
-                        off += len(bytes(p["s"]).decode("utf-8"))
-                    elif p["t"] == "slot":
-                        self.offs[(tuple(node["loc"]), i + 1)] = off
-                        sub = R.Flattener()
-                        text, _ = R.Layout(None).write(sub.expr(p["e"]))
-                        off += len(text) + 3
-            for v in node.values():
-                self._offsets(v)
-        elif isinstance(node, list):
-            for v in node:
-                self._offsets(v)
+        # (istr path, part index) -> character offset of the slot in the unescaped string
+        self.offs = {k[1:]: v for k, v in self.slot_pos.items() if k and k[0] == "off"}
+        # ... -> where the renderer wrote the slot, relative to the literal (line offset, column)
+        self.rel = {k[1:]: v for k, v in self.slot_pos.items() if k and k[0] == "rel"}
 
     def loc(self, loc):
         """Path position -> (line, col), for the diagnostics."""
-        if isinstance(loc, dict):          # interpolation slot: literal position + offset + 4
-            l, c = self.loc(loc["base"])
-            off = self.offs[(tuple(loc["base"]), loc["idx"])]
-            return l, c + off + 4
+        if isinstance(loc, dict):          # interpolation slot: where its expression starts in the source
+            l, c = self.tokpos(tuple(loc["base"]))
+            dl, dc = self.rel[(tuple(loc["base"]), loc["idx"])]
+            return (l, c + dc + 2) if dl == 0 else (l + dl, dc + 1 + 2)
         t = tuple(loc)
         if t == (0, 0):
             return 0, 0
         if t in self.pos:
             return self.pos[t]
         return self.slot_pos[t]
+
+    def tokpos(self, t):
+        """Where the interpolated literal with path t starts (its own `$`, not an enclosing parenthesis)."""
+        k = ("tok",) + t
+        return self.pos[k] if k in self.pos else self.slot_pos[k]
 
     def relocated(self):
         """The generated tree with every path replaced by the recorded position."""
@@ -81,8 +70,11 @@ class Placed:
                         parts = []
                         for i, p in enumerate(v):
                             if p["t"] == "slot":
-                                parts.append({"t": "slot",
-                                              "off": self.offs[(tuple(node["loc"]), i + 1)],
+                                key = (tuple(node["loc"]), i + 1)
+                                l0, c0 = self.tokpos(tuple(node["loc"]))
+                                dl, dc = self.rel[key]
+                                parts.append({"t": "slot", "off": self.offs[key],
+                                              "sloc": [l0, c0 + dc] if dl == 0 else [l0 + dl, dc + 1],
                                               "e": go(p["e"], True)})
                             else:
                                 parts.append(p)
